@@ -25,7 +25,8 @@ MODELS = [("c15", "Extract/ExC15.v", "run_C15")]
 
 LNAMES = {1: "Insert", 2: "DeleteBefore", 3: "MoveCursor", 4: "CompleteNext", 5: "CompletePrev", 6: "Cancel",
           7: "StartCompletion", 8: "StartTask", 9: "Tick", 10: "CYield", 11: "CEnd", 12: "VReturn", 13: "SReturn", 14: "InstallMenu",
-          15: "DeleteFwd", 16: "SetText", 17: "Swap", 18: "Validate", 19: "HistoryLines"}
+          15: "DeleteFwd", 16: "SetText", 17: "Swap", 18: "Validate", 19: "HistoryLines",
+          20: "Reset", 21: "ValidateAndHandle"}
 END = object()
 
 
@@ -41,6 +42,8 @@ def label_str(l):
         return "InstallMenu(%r)" % ([(unS(t), st) for t, st in l[1]],)
     if k == 16:
         return "SetText(%r)" % unS(l[1])
+    if k == 20:
+        return "Reset(%r,%d)" % (unS(l[1]), l[2])
     return "%s(%s)" % (LNAMES.get(k, "?"), ",".join(str(x) for x in l[1:]))
 
 
@@ -116,6 +119,7 @@ class Rig:
         self.sugg_src = {}       # id(Suggestion) -> (Suggestion, Call)
         self.vsrc = None
         self.sync_verdict = (True, 0)
+        self.keep_text = False
         self.obj_tags = {}       # id(Completion made by the buffer itself) -> (Completion, Call, index)
         self.effective = None
         self.prev_cs = None
@@ -176,7 +180,8 @@ class Rig:
         cwt, vwt, hsug, maxn = bool(cfg[0]), bool(cfg[1]), bool(cfg[2]), cfg[3]
         self.b = Buffer(completer=HC(), validator=HV() if vwt else None, auto_suggest=HS() if hsug else None,
                         complete_while_typing=cwt, validate_while_typing=vwt,
-                        max_number_of_completions=maxn, document=Document(text, cursor))
+                        max_number_of_completions=maxn, document=Document(text, cursor),
+                        accept_handler=lambda buf: rig.keep_text)
 
     # -- one model label on the real objects (user labels) ------------------
     def user(self, l):
@@ -210,6 +215,16 @@ class Rig:
                 for j, c in enumerate(comps):
                     self.obj_tags[id(c)] = (c, call, j)
                 self.effective = [14, [[S(t), st] for t, st in call.items]]
+            elif k == 20:
+                from prompt_toolkit.document import Document
+                b.reset(Document(unS(l[1]), l[2]))
+            elif k == 21:
+                self.sync_verdict = (bool(l[1]), l[2])
+                self.keep_text = bool(l[3])
+                doc, before = b.document, self.vst_code()
+                b.validate_and_handle()
+                if before == 0 and self.vst_code() != 0:
+                    self.vsrc = doc
             elif k == 15:
                 b.delete(l[1])
             elif k == 16:
@@ -377,7 +392,7 @@ def dsx(d):
 
 def group_shape_ok(g):
     if len(g) == 1:
-        return g[0][0] in (1, 2, 3, 4, 5, 6, 7, 9, 14, 15, 16, 17, 18, 19)
+        return g[0][0] in (1, 2, 3, 4, 5, 6, 7, 9, 14, 15, 16, 17, 18, 19, 20, 21)
     return len(g) == 2 and g[0][0] == 9 and g[1][0] in (10, 11, 12, 13)
 
 
@@ -393,7 +408,7 @@ def valid_case(case):
                 return False
             for l in g:
                 k = l[0]
-                arity = {1: 2, 2: 2, 3: 2, 4: 3, 5: 3, 6: 1, 7: 2, 9: 1, 10: 4, 11: 2, 12: 3, 13: 3, 14: 2, 15: 2, 16: 2, 17: 1, 18: 4, 19: 1}[k]
+                arity = {1: 2, 2: 2, 3: 2, 4: 3, 5: 3, 6: 1, 7: 2, 9: 1, 10: 4, 11: 2, 12: 3, 13: 3, 14: 2, 15: 2, 16: 2, 17: 1, 18: 4, 19: 1, 20: 3, 21: 4}[k]
                 if len(l) != arity:
                     return False
                 if k == 7 and not (0 <= l[1] <= 3):
@@ -405,6 +420,10 @@ def valid_case(case):
                 if k == 18 and (l[1] not in (0, 1) or l[3] not in (0, 1) or not isinstance(l[2], int)):
                     return False
                 if k == 16 and not all(isinstance(x, int) for x in l[1]):
+                    return False
+                if k == 20 and not (all(isinstance(x, int) for x in l[1]) and isinstance(l[2], int) and 0 <= l[2] <= len(l[1])):
+                    return False
+                if k == 21 and (l[1] not in (0, 1) or l[3] not in (0, 1) or not isinstance(l[2], int)):
                     return False
                 if k == 13 and not (l[2] == [] or (len(l[2]) == 1 and isinstance(l[2][0], list))):
                     return False
@@ -547,21 +566,25 @@ def oracle_step(g, ob, oa):
     bcs = ob[3]
     broken_before = bool(bcs) and bool(bcs[0][3]) and not (0 <= bcs[0][3][0] < len(bcs[0][2]))
     if st != 0:
-        valid_args = not (k == 2 and lab[1] < 0) and not (k in (4, 5) and lab[1] < 1)
-        if valid_args:
-            return ("%s raised (status %d)" % (label_str(lab), st),
-                    {"family": "raises-in-broken-menu" if broken_before else "raises", "at": LNAMES[k]})
-        return None
+        if k == 2 and lab[1] < 0:
+            return None          # delete_before_cursor asserts count >= 0: documented precondition
+        fam = "raises-in-broken-menu" if broken_before else "raises"
+        if k in (4, 5) and lab[1] < 0 and st == 1:
+            fam = "raises-negative-count"
+        return ("%s raised (status %d)" % (label_str(lab), st), {"family": fam, "at": LNAMES[k]})
     # cycling
-    if k in (4, 5) and lab[1] == 1 and not lab[2] and bcs and not broken_before:
+    if k in (4, 5) and bcs and not broken_before:
         _, borig, bcomps, bidx = bcs[0]
         n = len(bcomps)
         bi = bidx[0] if bidx else None
+        cnt, nowrap = lab[1], lab[2]
         if n >= 1:
+            # C15_cycle_* (count 1) and C15_next_count / C15_prev_count (any count that stays in range;
+            # a call that gets here did not raise)
             if k == 4:
-                exp = 0 if bi is None else (None if bi == n - 1 else bi + 1)
+                exp = 0 if bi is None else ((bi if nowrap else None) if bi == n - 1 else min(n - 1, bi + cnt))
             else:
-                exp = n - 1 if bi is None else (None if bi == 0 else bi - 1)
+                exp = n - 1 if bi is None else ((bi if nowrap else None) if bi == 0 else max(0, bi - cnt))
             if not ocs or not ocs[0][0] or ocs[0][2] != bcomps or ocs[0][1] != borig or (ocs[0][3][0] if ocs[0][3] else None) != exp:
                 return ("%s from index %r of %d completions must select %r in the same menu" % (LNAMES[k], bi, n, exp),
                         {"family": "cycle", "at": LNAMES[k]})
@@ -612,11 +635,14 @@ def alphabet(kind):
               ("Y1", G_sched([10, 0, S("ab"), -1]), lambda i: i["c"] > 0),
               ("Y2", G_sched([10, 0, S("a"), -1]), lambda i: i["c"] > 0),
               ("E", G_sched([11, 0]), lambda i: i["c"] > 0)]
+    if kind == "all":
+        A += [("A", G_user([21, 1, 0, 0]), always), ("Z", G_user([20, S("ab"), 2]), always)]
     if kind in ("val", "all"):
         if kind == "val":
             A += [("I", G_user([1, S("b")]), always), ("D", G_user([2, 1]), always), ("M", G_user([3, 0]), always),
                   ("F", G_user([15, 1]), always), ("W", G_user([16, S("xb")]), always),
                   ("Vs", G_user([18, 1, 0, 1]), always), ("Vf", G_user([18, 0, 0, 1]), always),
+                  ("A", G_user([21, 1, 0, 0]), always), ("Z", G_user([20, S("ab"), 1]), always),
                   ("T", TICK, lambda i: i["unstarted"] > 0)]
         A += [("V+", G_sched([12, 0, 1]), lambda i: i["v"] > 0), ("V-", G_sched([12, 0, 0]), lambda i: i["v"] > 0),
               ("R", G_sched([13, 0, [S("x")]]), lambda i: i["s"] > 0), ("R0", G_sched([13, 0, []]), lambda i: i["s"] > 0)]
@@ -653,7 +679,7 @@ def random_case(rng, maxlen):
     for _ in range(n):
         r = rng.random()
         if r < 0.40:
-            k = rng.choice([1, 1, 1, 2, 2, 3, 3, 4, 4, 5, 6, 7, 7, 7, 14, 15, 15, 16, 16, 17, 18, 18, 19])
+            k = rng.choice([1, 1, 1, 2, 2, 3, 3, 4, 4, 5, 6, 7, 7, 7, 14, 15, 15, 16, 16, 17, 18, 18, 19, 20, 21, 21])
             if k == 1:
                 l = [1, S(rng.choice(["a", "b", "b", "ab", "", " "]))]
             elif k == 2:
@@ -661,7 +687,7 @@ def random_case(rng, maxlen):
             elif k == 3:
                 l = [3, rng.choice([-1, 0, 1, 2, 3, 99])]
             elif k in (4, 5):
-                l = [k, rng.choice([1, 1, 1, 2, 3]), rng.choice([0, 0, 0, 1])]
+                l = [k, rng.choice([1, 1, 1, 2, 3, 0, -1, -2]), rng.choice([0, 0, 0, 1])]
             elif k == 6:
                 l = [6]
             elif k == 14:
@@ -674,6 +700,11 @@ def random_case(rng, maxlen):
                 l = [k]
             elif k == 18:
                 l = [18, rng.randint(0, 1), rng.choice([0, 1, 1, 5, -2]), rng.randint(0, 1)]
+            elif k == 20:
+                t = rng.choice(["", "", "a", "ab", "abc", "ab\nab"])
+                l = [20, S(t), rng.randint(0, len(t))]
+            elif k == 21:
+                l = [21, rng.choice([1, 1, 0]), rng.choice([0, 1, 5]), rng.choice([0, 0, 1])]
             else:
                 l = [7, rng.randint(0, 3)]
             groups.append([l])
@@ -740,7 +771,7 @@ def gen_batches(chk):
         ("comp/start(first)", [0, 0, 0, 10000], "ab", 1, "comp", [("S1", G_user([7, 1]), yes)], 5 if thorough else 4),
         ("comp/start(last),max=2", [0, 0, 0, 2], "ab", 1, "comp", [("S2", G_user([7, 2]), yes)], 5 if thorough else 4),
         ("comp/while-typing", [1, 0, 0, 10000], "ab", 1, "comp", [("S3", G_user([7, 3]), yes)], 5 if thorough else 4),
-        ("validate+suggest", [0, 1, 1, 10000], "ab", 1, "val", [], 6 if thorough else 5),
+        ("validate+suggest+accept", [0, 1, 1, 10000], "ab", 1, "val", [], 5 if thorough else 4),
         ("everything", [1, 1, 1, 10000], "ab", 1, "all", [("S1", G_user([7, 1]), yes)], 4 if thorough else 3),
     ]
     fixed = load_corpus(PROP) + cycle_cases() + [WITNESS] + MALFORMED
